@@ -22,6 +22,9 @@ pub const WIDE_CASE: u64 = 4_100_000_000;
 
 #[derive(Clone, Copy, PartialEq, Debug)]
 pub enum Role {
+    /// C02: more than 32768 directory entries (8192 directory sectors in version 3), then
+    /// link / colour / free-slot writes for entries beyond that, judged by reopening
+    Persist,
     Model,
     Rules,
     Hostile,
@@ -185,20 +188,22 @@ fn wide_scenario(ctx: &Ctx, rep: &mut Report, role: Role, variant: u64) {
     let sizes: &[usize] = match role {
         Role::Model | Role::Rules => &[70, 140, 400, 1300],
         Role::NoEffect => &[1023, 1024, 1100, 1500],
+        Role::Persist => &[33100, 33100, 33100, 33100],
         Role::Hostile => {
             if ctx.quick() {
                 &[2500, 4000, 6000, 9000]
             } else {
-                &[4000, 9000, 20000, 30000]
+                &[4000, 9000, 15000, 20000]
             }
         }
     };
     let n = sizes[(variant % 4) as usize] + if matches!(role, Role::Model | Role::Rules) { rng.usize_below(30) } else { 0 };
     let order_kind = match role {
+        Role::Persist => 3,
         Role::Hostile | Role::NoEffect => (variant / 4 + variant) % 2,
         _ => (variant / 4 + rng.below(3)) % 4,
     };
-    let version = if (variant + rng.below(2)) % 2 == 0 { Version::V3 } else { Version::V4 };
+    let version = if role == Role::Persist || (variant + rng.below(2)) % 2 == 0 { Version::V3 } else { Version::V4 };
     let mut log: Vec<String> = vec![format!("version {:?}, {} children, role {:?}", version, n, role)];
     let t0 = std::time::Instant::now();
     let res = guard::catch(|| -> Result<(), Fail> {
@@ -255,6 +260,33 @@ fn wide_scenario(ctx: &Ctx, rep: &mut Report, role: Role, variant: u64) {
                 }
                 rep.count("wide.model_scenarios_passed");
             }
+            Role::Persist => {
+                for mode in [Mode::Strict, Mode::Permissive] {
+                    let c2 = reopen(&shared, mode).map_err(|e| ("crash-point | reopen | open failed".to_string(), format!("{:?}, after creating {n} streams: {e}", mode)))?;
+                    check_listing(&c2, &live, true, "after reopening", "crash-point | reopen")?;
+                }
+                // the entries created last sit in the highest directory sectors: remove some of
+                // them (sibling links, colours and freed slots are rewritten in place), create
+                // others, and look at the stored bytes again
+                let k = live.len();
+                for v in [k - 1, k - 2, k - 7, k - 40, k - 300] {
+                    let (name, _) = live.remove(v);
+                    log.push(format!("remove_stream /big/{name}"));
+                    cf.remove_stream(format!("/big/{name}")).map_err(|e| ("harness-or-C01: remove_stream refused".to_string(), format!("{name}: {e}")))?;
+                }
+                for extra in 0..6 {
+                    let name = format!("x{extra:05}");
+                    cf.create_stream(format!("/big/{name}")).map_err(|e| ("harness-or-C01: create_stream refused".to_string(), format!("{name}: {e}")))?;
+                    live.push((name, 1)); // index 1: empty content
+                }
+                log.push("create six more streams /big/xNNNNN".into());
+                for mode in [Mode::Strict, Mode::Permissive] {
+                    let mut c2 = reopen(&shared, mode).map_err(|e| ("crash-point | reopen | open failed".to_string(), format!("{:?}, after removals and creations among {n} entries: {e}", mode)))?;
+                    check_listing(&c2, &live, true, "after removals and creations, reopened", "crash-point | reopen")?;
+                    check_contents(&mut c2, &live, &mut rng, 6, "after removals and creations, reopened", "crash-point | reopen")?;
+                }
+                rep.count("wide.persist_scenarios_passed");
+            }
             Role::Rules => {
                 use crate::props::hist::check_image;
                 check_image(&shared.bytes(), rep).map_err(|(s, d)| (s, format!("after creating {} children: {}", n, d)))?;
@@ -292,6 +324,9 @@ fn wide_scenario(ctx: &Ctx, rep: &mut Report, role: Role, variant: u64) {
                 // then confirms it in isolation and reports the abort.
                 drop(cf);
                 let bytes = shared.bytes();
+                // building the chain is quadratic in the crate (it walks the chain for every
+                // insertion); the CPU budget is for what is judged here: opening and reading
+                guard::case_begin(WIDE_CASE);
                 log.push(format!("open the {} bytes in both modes and walk them on a thread with a 256 KiB stack", bytes.len()));
                 let h = std::thread::Builder::new()
                     .stack_size(256 * 1024)
